@@ -23,16 +23,18 @@ CONSTANTS Plans       \* set of <<segments per line (>= 2), joiners, argument fo
 SafeCmds == {<<"o", "u", "t">>, <<"t", "r", "u", "e">>}
 \* zz\out: the command murex runs is `zzout` (a backslash before an ordinary character is that character), which is on no
 \* list; a tokeniser that drops what stands before the escape sees the safe name `out`
-UnsafeCmds == {<<"k", "i", "l", "l">>, <<"v", "x", "r", "m">>, <<"z", "z", "BS", "o", "u", "t">>}
+\* \zout: the same with the escape at the very start of the command word (murex runs `zout`)
+UnsafeCmds == {<<"k", "i", "l", "l">>, <<"v", "x", "r", "m">>, <<"z", "z", "BS", "o", "u", "t">>, <<"BS", "z", "o", "u", "t">>}
 Cmds == SafeCmds \cup UnsafeCmds
 
-JoinerNames == {"|", "->", ";", "&&", "||", "=>", "?", "LF"}
+\* "?t": the stderr pipe written tight against the word before it (`x? y`): a pipe for murex as soon as a blank stands on either side
+JoinerNames == {"|", "->", ";", "&&", "||", "=>", "?", "?t", "LF"}
 JoinText(j) == CASE j = "|" -> <<"|">> [] j = "->" -> <<"-", ">">> [] j = ";" -> <<";">> [] j = "&&" -> <<"&", "&">>
-                 [] j = "||" -> <<"|", "|">> [] j = "=>" -> <<"=", ">">> [] j = "?" -> <<"SP", "?">> [] j = "LF" -> <<"LF">>
+                 [] j = "||" -> <<"|", "|">> [] j = "=>" -> <<"=", ">">> [] j = "?" -> <<"SP", "?">> [] j = "?t" -> <<"?", "SP">> [] j = "LF" -> <<"LF">>
 
 \* argument forms of a command segment (inner = the command inside a block / sub-shell)
 ArgFormNames == {"none", "plain", "quoted", "block", "subshell", "arraysub", "var", "redirect", "append", "pipefile", "escaped",
-                 "parensub", "bqsub", "dqsub", "nestparensub", "tblock"}
+                 "parensub", "bqsub", "dqsub", "nestparensub", "tblock", "appendt", "pipefilet"}
 \* a sub-shell is evaluated inside double quotes and inside ( ) / %( ) strings as well
 SubForms == {"subshell", "arraysub", "parensub", "bqsub", "dqsub", "nestparensub"}
 NeedsInner(f) == f \in {"block", "tblock"} \cup SubForms
@@ -53,6 +55,8 @@ ArgText(f, inner) ==
       [] f = "redirect" -> <<"x", "SP", ">", "SP", "f">>           \* not a redirection in murex: `>` is an ordinary word here
       [] f = "append"   -> <<"x", "SP", ">", ">", "SP", "f">>      \* append stdout to file f
       [] f = "pipefile" -> <<"x", "SP", "|", ">", "SP", "f">>      \* write stdout to file f
+      [] f = "appendt"  -> <<"x", ">", ">", "f">>                  \* the same without blanks: still file operations for murex
+      [] f = "pipefilet" -> <<"x", "|", ">", "f">>
 \* segments: a command (glue: is the command word followed by a blank when it has no argument) or an assignment
 \* (trail: is the argument followed by a blank before the flow token)
 CmdSegs(ArgForms) == {[k |-> "cmd", cmd |-> c, glue |-> g, form |-> f, inner |-> i, trail |-> t] :
@@ -62,9 +66,11 @@ Norm(s) == \* canonical: inner only matters for forms that use it; glue only for
               !.glue = IF s.form = "none" THEN s.glue ELSE TRUE,
               !.trail = IF s.form = "none" THEN FALSE ELSE s.trail]
 Segs(ArgForms) == {Norm(s) : s \in CmdSegs(ArgForms)}
-                  \cup {[k |-> "assign", cmd |-> <<>>, glue |-> TRUE, form |-> "none", inner |-> <<>>, trail |-> FALSE]}
+                  \cup {[k |-> "assign", cmd |-> <<>>, glue |-> TRUE, form |-> "none", inner |-> <<>>, trail |-> FALSE],
+                        \* an assignment to a variable that is called like a safe command: `out = 1`
+                        [k |-> "assign", cmd |-> <<"o", "u", "t">>, glue |-> TRUE, form |-> "none", inner |-> <<>>, trail |-> FALSE]}
 SegText(s) ==
-    IF s.k = "assign" THEN <<"v", "SP", "=", "SP", "1">>
+    IF s.k = "assign" THEN (IF s.cmd = <<>> THEN <<"v">> ELSE s.cmd) \o <<"SP", "=", "SP", "1">>
     ELSE s.cmd \o (IF s.form = "none" THEN (IF s.glue THEN <<"SP">> ELSE <<>>)
                    ELSE <<"SP">> \o ArgText(s.form, s.inner) \o (IF s.trail THEN <<"SP">> ELSE <<>>))
 
@@ -76,8 +82,8 @@ LastSeg == [k |-> "cmd", cmd |-> <<"o", "u", "t">>, glue |-> TRUE, form |-> "non
 LinesOf(maxsegs, Joiners, ArgForms) ==
     UNION {{[segs |-> Append(ss, LastSeg), joins |-> js] : ss \in SeqsOf(Segs(ArgForms), n), js \in SeqsOf(Joiners, n)} : n \in 1..(maxsegs - 1)}
 Lines == UNION {LinesOf(p[1], p[2], p[3]) : p \in Plans}
-PlansQ == {<<2, JoinerNames, ArgFormNames>>, <<3, {"|", ";", "->", "&&"}, {"none", "plain"}>>}
-PlansT == {<<2, JoinerNames, ArgFormNames>>, <<3, {"|", ";", "->", "&&"}, {"none", "plain", "subshell", "append"}>>}
+PlansQ == {<<2, JoinerNames, ArgFormNames>>, <<3, {"|", ";", "->", "&&", "?t"}, {"none", "plain"}>>}
+PlansT == {<<2, JoinerNames, ArgFormNames>>, <<3, {"|", ";", "->", "&&", "?t"}, {"none", "plain", "subshell", "append", "appendt"}>>}
 
 RECURSIVE Render(_, _, _)
 Render(l, k, upto) == IF k > upto THEN <<>>
@@ -90,7 +96,7 @@ Executed(l) == Render(l, 1, N(l) - 1)          \* the text before the last flow 
 RunCmds(l) == {l.segs[k].cmd : k \in {j \in 1..(N(l) - 1) : l.segs[j].k = "cmd"}}
               \cup {l.segs[k].inner : k \in {j \in 1..(N(l) - 1) : l.segs[j].k = "cmd" /\ NeedsInner(l.segs[j].form)}}
 HasAssign(l) == \E k \in 1..(N(l) - 1) : l.segs[k].k = "assign"
-HasFileRedirect(l) == \E k \in 1..(N(l) - 1) : l.segs[k].form \in {"append", "pipefile"}
+HasFileRedirect(l) == \E k \in 1..(N(l) - 1) : l.segs[k].form \in {"append", "pipefile", "appendt", "pipefilet"}
 HasSubShell(l) == \E k \in 1..(N(l) - 1) : l.segs[k].form \in SubForms
 Reasons(l) == (IF RunCmds(l) \cap UnsafeCmds # {} THEN {"unsafe-command"} ELSE {})
               \cup (IF HasAssign(l) THEN {"assignment"} ELSE {})
@@ -99,7 +105,7 @@ Reasons(l) == (IF RunCmds(l) \cap UnsafeCmds # {} THEN {"unsafe-command"} ELSE {
 MustNotRun(l) == Reasons(l) # {}
 \* where an unsafe command of the executed text stands: directly before a flow token (no blank after it),
 \* before a blank, inside a block, inside a sub-shell  -- names the class of a failure in violation keys
-Where(l) == {IF l.segs[k].form = "none" /\ ~l.segs[k].glue /\ l.joins[k] # "?" THEN <<"bare-before", l.joins[k]>> ELSE <<"word", "">> :
+Where(l) == {IF l.segs[k].form = "none" /\ ~l.segs[k].glue /\ l.joins[k] \notin {"?", "?t"} THEN <<"bare-before", l.joins[k]>> ELSE <<"word", "">> :
                  k \in {j \in 1..(N(l) - 1) : l.segs[j].k = "cmd" /\ l.segs[j].cmd \in UnsafeCmds}}
             \cup {<<"in", l.segs[k].form>> : k \in {j \in 1..(N(l) - 1) : l.segs[j].k = "cmd" /\ NeedsInner(l.segs[j].form) /\ l.segs[j].inner \in UnsafeCmds}}
 
